@@ -31,7 +31,7 @@ pub fn fillers(lang: &str) -> Vec<&'static str> {
 }
 pub fn vocab(lang: &str) -> Vocab {
     // balanced classes: units, teens, tens, compounds(21..99), scales-ish (>=100 pieces), ordinals, zero
-    let mut classes: Vec<BTreeSet<String>> = vec![BTreeSet::new(); 7];
+    let mut classes: Vec<BTreeSet<String>> = vec![BTreeSet::new(); 8];
     {
         let mut r = Rng(7);
         let mut put = |k: usize, w: Vec<String>| for x in w { classes[k].insert(x); };
@@ -42,6 +42,18 @@ pub fn vocab(lang: &str) -> Vocab {
         for n in [100u64, 1000, 1_000_000, 1_000_000_000, 200, 2000, 2_000_000, 3_000_000_000, 1100, 100_000] { for _ in 0..3 { let w = cardinal(lang, n, &mut r); put(4, w.into_iter().flat_map(|x| x.split('-').map(|y| y.to_string()).collect::<Vec<_>>()).collect()); } }
         for n in (1..=31).chain([40, 50, 60, 70, 80, 90, 100, 1000]) { for _ in 0..2 { if let Some((w, _)) = ordinal(lang, n, &mut r) { put(5, vec![w.last().unwrap().clone()]); } } }
         put(6, vec![zero_word(lang).to_string()]); if lang == "en" { put(6, vec![s("o"), s("nought")]); }
+        // class 7: the Spanish '-avo' fraction words (rendered 1/n); other languages repeat their ordinals here
+        if lang == "es" {
+            for w in ["onceavo", "doceavo", "treceavo", "catorceavo", "quinceavo", "dieciochoavo", "veinteavo", "veintavo", "veinticincoavo", "treintavo", "cuarentavo", "cincuentavo", "sesentavo", "setentavo", "ochentavo", "noventavo", "centavo"] {
+                put(7, vec![s(w), format!("{}s", w)]);
+            }
+        } else {
+            for n in [2u64, 3, 4, 10, 12, 20, 100] { if let Some((w, _)) = ordinal(lang, n, &mut r) { put(7, vec![w.last().unwrap().clone()]); } }
+        }
+        // scale words beyond the spellers' range (10^12 and up) that the languages publish: they make
+        // numerals of 16..25 digits reachable for the well-formedness / totality / agreement properties
+        let extra: &[&str] = match lang { "de" => &["billion", "billionste"], "it" => &["bilione", "bilioni", "bilionesimo"], "nl" => &["biljoen", "biljoenste"], "pt" => &["bilião", "biliões"], _ => &[] };
+        put(4, extra.iter().map(|x| s(x)).collect());
     }
     let mut classes: Vec<Vec<String>> = classes.into_iter().map(|c| c.into_iter().collect::<Vec<String>>()).collect();
     // fixed class indices; a class that is empty in this language (pt has no one-word compounds) repeats the teens
